@@ -381,6 +381,18 @@ class XoriImmediate(RewritePattern):
             )
 
 
+_SHIFT_BY_ZERO_IS_IDENTITY = (
+    rv32.SlliOp,
+    rv32.SrliOp,
+    rv32.SraiOp,
+    rv32.RorIOp,
+    rv64.SlliOp,
+    rv64.SrliOp,
+    rv64.SraiOp,
+    rv64.RorIOp,
+)
+
+
 class ShiftbyZero(RewritePattern, Generic[IWidth]):
     """
     shift(x, 0) -> x
@@ -400,7 +412,13 @@ class ShiftbyZero(RewritePattern, Generic[IWidth]):
         rewriter: PatternRewriter,
     ) -> None:
         # check if the shift amount is zero
-        if isa(op, self.shift_op_type) and (op.immediate.value.data == 0):
+        # the single-bit instructions (bclri, bexti, binvi, bseti) share the base
+        # class of the shifts but act on bit 0 when their immediate is zero
+        if (
+            isa(op, self.shift_op_type)
+            and isinstance(op, _SHIFT_BY_ZERO_IS_IDENTITY)
+            and (op.immediate.value.data == 0)
+        ):
             rewriter.replace(op, riscv.MVOp(op.rs1, rd=op.rd.type))
 
 
